@@ -786,6 +786,20 @@ ops:
 			}
 		}
 		for x := range seen {
+			if reentrant && updated != 0 && w.dependsOn(x, updated) {
+				// Executed by a read from inside the alert of the very
+				// update it depends on. The update is still in flight: an
+				// implementation that pushes staleness notifies the nodes
+				// between the source and this one after the subscriber that
+				// read it (benign change C11-g1), so this execution may have
+				// seen the old or the new value - it may even have failed on
+				// a value the update has just replaced. It is not judged:
+				// the version is taken as found and the node may execute
+				// once more. Every read after the update returned is judged.
+				w.nodes[x].execs = w.real[x].Version()
+				w.nodes[x].dirty = true
+				continue
+			}
 			if w.panics(x) {
 				// started and aborted by the panic, or recovered by the
 				// implementation: either way not judged; the node stays
@@ -795,15 +809,6 @@ ops:
 			}
 			w.nodes[x].dirty = false
 			w.nodes[x].execs++
-			if reentrant && updated != 0 && w.dependsOn(x, updated) {
-				// Executed by a read from inside the alert of the very
-				// update it depends on: the update was still in flight (an
-				// implementation that pushes staleness notifies this node
-				// after the subscriber that read it - benign change C11-g1),
-				// so the change may reach the node after this execution: it
-				// may execute once more.
-				w.nodes[x].dirty = true
-			}
 		}
 		if kind != 0 && len(w.log) > 0 {
 			res.Count("probe:executions-outside-reads", len(w.log))
